@@ -137,13 +137,15 @@ type Action struct {
 
 // Case is a complete closed-loop run description.
 type Case struct {
-	L                int64      `json:"L"`
-	P                int64      `json:"P"`
-	Min              int32      `json:"min"`
-	Max              int32      `json:"max"`
+	L   int64 `json:"L"`
+	P   int64 `json:"P"`
+	Min int32 `json:"min"`
+	Max int32 `json:"max"`
 	// PodsStuckAt > 0: the StatefulSet never has more than that many pods, whatever scale is requested (pods beyond stay
 	// pending); with min-shard above it the coordinator keeps asking in vain and the existing shards do the work
-	PodsStuckAt int        `json:"podsStuckAt,omitempty"`
+	PodsStuckAt int `json:"podsStuckAt,omitempty"`
+	// PeriodMS: the coordinator's period (0: cycles follow each other at once); what a cycle decides does not depend on it
+	PeriodMS         int        `json:"periodMs,omitempty"`
 	Idle             string     `json:"idle"` // off | now | long | mid (MidIdle; only in units that do not judge convergence)
 	DisableAlleviate bool       `json:"disableAlleviate"`
 	RetainStore      bool       `json:"retainStore"`
@@ -881,7 +883,7 @@ func NewWorld(c *Case) (*World, error) {
 	}
 
 	opt := &coordinator.Option{MaxHeadSeries: c.L, MaxProcessSeries: c.P, MaxShard: c.Max, MinShard: c.Min,
-		Period: 0, DisableAlleviate: c.DisableAlleviate}
+		Period: time.Duration(c.PeriodMS) * time.Millisecond, DisableAlleviate: c.DisableAlleviate}
 	switch c.Idle {
 	case "now":
 		opt.MaxIdleTime = time.Nanosecond
